@@ -13,6 +13,8 @@ import (
 	"pgregory.net/rapid"
 )
 
+var signedKinds = map[Kind]bool{KInt: true, KInt8: true, KInt16: true, KInt32: true, KInt64: true}
+
 var (
 	AllArgKinds = []Kind{KString, KStringPtr, KStringSlice, KInt, KInt8, KInt16, KInt32, KInt64, KUint, KUint8, KUint16,
 		KUint32, KUint64, KIntSlice, KIntPtr, KUint8Slice, KFloat32, KFloat64, KFloatSlice, KDuration, KDurSlice, KDurPtr, KMapSS, KMapSI, KMapIS, KMapFS,
@@ -122,7 +124,8 @@ var (
 	longPoolUni    = []string{"é-l", "名前", "größe"}
 	cmdPool        = []string{"add", "rm", "list", "ls", "co", "ad", "remove", "a", "commit", "é"}
 	nsPool         = []string{"a", "ns", "a.b", "db", "x-y"}
-	stringPool     = []string{"", "x", "hello world", "a=b", "=lead", "-dash", "--dd", "é中", "k:v", "\"q\"", "\"unterminated", " lead", "trail ", "a,b", "--", "-", "---x", "-5", "0", "véry long value with spaces and = signs", "\\back", "tab\tx", "new\nline"}
+	stringPool     = []string{"", "x", "hello world", "a=b", "=lead", "-dash", "--dd", "é中", "k:v", "\"q\"", "\"unterminated", " lead", "trail ", "a,b", "--", "-", "---x", "-5", "0", "véry long value with spaces and = signs", "\\back", "tab\tx", "new\nline",
+		"'", "''", "'quoted'", "snake_case_value", "dir/my_file", "trailing\\", "C:\\data\\", "UPPER", " ", "%d %s 100%", "true", "no-x", "007"}
 )
 
 type declGen struct {
@@ -239,7 +242,23 @@ func genValidText(t *rapid.T, k Kind, base int) string {
 				n = max
 			}
 		}
-		return fmtBig(n, base)
+		tx := fmtBig(n, base)
+		// leading zeros (and, for signed types, an explicit plus sign) denote
+		// the same number
+		if pct(t, "leadingZeros", 15) {
+			z := rapid.SampledFrom([]string{"0", "00", "000"}).Draw(t, "zeros")
+			if strings.HasPrefix(tx, "-") {
+				tx = "-" + z + tx[1:]
+			} else {
+				tx = z + tx
+			}
+		} else if _, signed := signedKinds[k]; signed && n.Sign() >= 0 && pct(t, "plusSign", 6) {
+			tx = "+" + tx
+		}
+		if _, ver := RefOne(k, base, tx); ver != Accept {
+			tx = fmtBig(n, base)
+		}
+		return tx
 	}
 	panic("genValidText " + string(k))
 }
@@ -991,7 +1010,49 @@ func (g *argvGen) emitPlain() {
 		}
 		return
 	}
+	if w, ok := g.nearCommandWord(); ok && pct(t, "nearCmdWord", 30) {
+		g.out = append(g.out, w)
+		return
+	}
 	g.out = append(g.out, rapid.SampledFrom([]string{"word", "w2", "add", "rm", "x", "", "-", "file.txt", "é", "a b", "3", "---x", "="}).Draw(t, "plainWord"))
+}
+
+// nearCommandWord draws a word that is close to, but (in the current context)
+// not, a command name or alias: an abbreviation, a case variant, an extension,
+// or the name of a command of another level.
+func (g *argvGen) nearCommandWord() (string, bool) {
+	var cands []string
+	add := func(n string) {
+		rs := []rune(n)
+		if len(rs) > 1 {
+			cands = append(cands, string(rs[:len(rs)-1]), string(rs[:1]), string(rs[:(len(rs)+1)/2]))
+		}
+		cands = append(cands, n+"x", flipCase(n), n+" ")
+	}
+	for i := range g.r.ctx.Cmds {
+		c := &g.r.ctx.Cmds[i]
+		add(c.Name)
+		for _, a := range c.Aliases {
+			add(a)
+		}
+	}
+	g.d.EachCmd(func(c *Cmd, chain []*Cmd) {
+		if c != &g.d.Root {
+			cands = append(cands, c.Name)
+			cands = append(cands, c.Aliases...)
+		}
+	})
+	sortStrings(cands)
+	var ok []string
+	for _, w := range cands {
+		if w != "" && g.r.childWord(w) == nil && !isOptSyntax(w) {
+			ok = append(ok, w)
+		}
+	}
+	if len(ok) == 0 {
+		return "", false
+	}
+	return rapid.SampledFrom(ok).Draw(g.t, "nearCmd"), true
 }
 
 func flipCase(s string) string {
@@ -1021,6 +1082,8 @@ func (g *argvGen) unknownLong() string {
 		if i := strings.Index(n, g.d.NsD()); i > 0 && g.d.NsD() != "" {
 			cands = append(cands, n[i+len(g.d.NsD()):]) // without the outermost namespace
 		}
+		// "lenient" spellings: other word separators, all upper case
+		cands = append(cands, strings.Replace(n, "-", "_", -1), strings.Replace(n, "_", "-", -1), strings.Replace(n, ".", "-", -1), strings.ToUpper(n), "no-"+n)
 	}
 	// options declared elsewhere in the tree (siblings, children)
 	for _, o := range g.d.AllOpts() {
